@@ -27,7 +27,7 @@ THEOREMS = ['C10_handler_words_balanced', 'C10_handler_words_balanced_sound', 'C
             'C10_len_zero_at_end', 'C10_get_stack_trace_pop_ok', 'C10_len_never_exceeds',
             'C10_overflow_trace_exceeds_limit', 'C10_tracelen_nonvacuous',
             'C10_limit_monotone', 'C10_limit_monotone_outcome', 'C10_depth_never_exceeds',
-            'C10_top_depth_never_exceeds', 'C10_force_in_progress', 'C10_cycle_detected_partial',
+            'C10_top_depth_never_exceeds', 'C10_force_in_progress', 'C10_cycle_detected',
             'C10_depthsem_nonvacuous']
 ALLOWED_AXIOMS = set()
 GAIN_BOUND = 16          # = handler_gain_bound in Props/C10.v
@@ -557,6 +557,19 @@ def check_sweep(run, impl_exe, cli, rng, tier):
     for n in ([10, 600, 2500] if tier == 'quick' else [10, 70, 600, 2500, 10000]):
         for f in flat_programs(n):
             jobs.append((f, n, [30, 64, 100, 500, 2000]))
+    corpus = os.path.join(vlib.VERIF, 'corpus', 'c10_sweep.txt')
+    if os.path.exists(corpus):
+        for i, l in enumerate(open(corpus)):
+            l = l.rstrip('\n')
+            if not l or l.startswith('#'):
+                continue
+            kind, exp, src = l.split('\t', 2)
+            if kind == 'finite':
+                jobs.insert(0, (fam('corpus-%d' % i, src, exp, flat=True), 0, [30, 64, 100, 500, 2000]))
+            elif kind == 'cycle':
+                jobs.insert(0, (fam('corpus-%d' % i, src, None, cyc=int(exp)), int(exp), [1, 2, 3, 4, 5, 8, 30, 500, 2000]))
+            else:
+                jobs.insert(0, (fam('corpus-%d' % i, src, None, infinite=True), 0, [1, 2, 3, 30, 500, 2000]))
     cases, index = [], {}
     for j, (f, d, lims) in enumerate(jobs):
         src = src_field(f['src'])
